@@ -1,8 +1,10 @@
 //! Per-property recording commands, one module per property (registered here).
 use crate::Args;
+pub mod c17;
 
 pub fn dispatch(_cmd: &str, _a: &Args) -> bool {
     match _cmd {
+        "c17" => c17::run(_a),
         _ => return false,
     }
     #[allow(unreachable_code)]
